@@ -179,6 +179,8 @@ type Runner struct {
 	E *Env
 	// Stuck counts the scenarios in which the driver had to declare quiescence.
 	Stuck int32
+	// QFDelayPct is the percentage of free calls whose quorum function is slow (1-3 ms per invocation).
+	QFDelayPct int
 }
 
 func (r *Runner) perNodeFn(sc ScParams) func(*puppet.Req, uint32) *puppet.Req {
